@@ -174,3 +174,17 @@ def canon_modulo_set_order(data):
         else:
             cur['sets'].append(r.key())
     return (fr.sul_raw, [(x['head'], x['origin'], sorted(x['sets']), x['iflr']) for x in lfs])
+
+
+def pick_plans(plans, nmax, pk):
+    """At most nmax of the enumerated fault plans: all of them when they fit, a seeded sample in the quick tier,
+    a stratified sample (every k-th plan, seeded phase) when a thorough case enumerates more than its budget."""
+    if len(plans) <= nmax:
+        return plans
+    if nmax <= len(pk):
+        idxs = sorted(set(int(pk[i % len(pk)] * len(plans)) % len(plans) for i in range(nmax)))
+    else:
+        step = len(plans) / float(nmax)
+        ph = pk[0] * step
+        idxs = sorted(set(min(int(ph + j * step), len(plans) - 1) for j in range(nmax)))
+    return [plans[i] for i in idxs]
